@@ -132,18 +132,26 @@ int main(int argc, char** argv) {
         for (int i = 0; i < NVARS; ++i) if (isFinalVar(order[i])) applyOne(S, h, fin, order[i]);
         doRealize(h, 4 + rnd() % 4, script);      // Position .. Acceleration
         // 2. rounds: a few variables go to OLD values (with realizations / queries in between) and come back to the final ones
-        int rounds = 1 + len / 3;
+        int rounds = 2 + len / 2;
         for (int r = 0; r < rounds; ++r) {
             int k = 1 + rnd() % 3;
             int sel[3];
             for (int i = 0; i < k; ++i) sel[i] = rnd() % NVARS;
+            // every other round pairs a parameter with a coordinate (q writes invalidate Position-stage caches)
+            if (k >= 2 && (r & 1)) sel[k - 1] = 1 + rnd() % 3;
             Vals old = symVals("old" + std::to_string(r) + "_", true, rnd() & 511);
             for (int i = 0; i < k; ++i) {
                 Vals o = old;
-                // a gravity vector of the SAME magnitude as the final one but another direction is a legal old value too
-                if (sel[i] == 21 && (rnd() & 1)) { o.gvec = fin.g; if (o.gvAxis == fin.gvAxis) o.gvAxis = (o.gvAxis + 1) & 3; }
                 applyOne(S, h, o, sel[i]);
                 script += " old" + std::to_string(sel[i]);
+                // a gravity vector of the SAME magnitude as the final one but another direction is a legal old value too:
+                // written after an unrelated one, so that setters which compare with the current value see "same magnitude"
+                if (sel[i] == 21 && (rnd() & 1)) {
+                    Vals o2 = o; o2.gvec = fin.g; if (o2.gvAxis == fin.gvAxis) o2.gvAxis = (o2.gvAxis + 1) & 3;
+                    if (rnd() & 1) doRealize(h, 6, script);
+                    applyOne(S, h, o2, 21); script += " old21'";
+                    if (rnd() & 1) doRealize(h, 6 + rnd() % 2, script);
+                }
                 if (rnd() % 3 == 0) doRealize(h, 2 + rnd() % 6, script);
             }
             if (rnd() % 2 == 0) {
@@ -154,7 +162,11 @@ int main(int argc, char** argv) {
                 script += " query";
             }
             // back to the final values: only the touched variables are written again (7/8 touched gravity: restore through 21)
+            // restore order is random, and realizations may happen between the restores (a cache filled while some variables
+            // still hold old values must not survive the restore of those variables)
+            for (int i = k - 1; i > 0; --i) { int j = rnd() % (i + 1); std::swap(sel[i], sel[j]); }
             for (int i = k - 1; i >= 0; --i) {
+                if (i < k - 1 && (rnd() & 1)) doRealize(h, 5 + rnd() % 3, script);
                 int w = sel[i];
                 if (w == 7 || w == 8) w = 21;
                 applyOne(S, h, fin, w);
